@@ -631,10 +631,10 @@ def run_streams(case):
     if k >= len(handles) or handles[k][1] is None:
       continue
     real, s = handles[k]
-    if kind == 'dev_wrte' and s['remote']:
+    if kind in ('dev_wrte', 'dev_clse') and s['remote']:
       owner = model.by_local(s['local'])
       if owner is not None and owner is not s:
-        # The device would be writing to a stream that is gone and
+        # The device would be writing to (or closing) a stream that is gone and
         # whose local id already belongs to a newer stream: the same
         # unspecified situation as unread packets at an id reuse (see
         # open_sent); the history ends here without a verdict.
